@@ -45,7 +45,7 @@ def layout(case):
     files["p/src/pgmod.f90"] = SRC
     files["p/media/pic.png"] = "not a real png\n"
     opts = {"project": "Pages", "src_dir": "./src", "output_dir": "./doc", "preprocess": False, "parallel": 0,
-            "search": False, "graph": False, "page_dir": "./pages", "media_dir": "./media", "copy_subdir": ["assets"]}
+            "search": False, "graph": False, "page_dir": "./pages", "media_dir": "./media", "copy_subdir": ["figs", "assets"]}
     files["p/proj.md"] = W.render_project_file(opts)
     files["home/.keep"] = ""
     if not any(k.startswith("p/pages/") for k in files):
